@@ -138,6 +138,28 @@ def tone_events(chk):
             else:
                 ev.update(len_ok=False, same_dev=0, fold_dev=0, double_dev=0)
             batch.add(ev, {'cls': name, 'N': N, 'nfft': nfft, 'seed': chk.seed})
+    # complex data: the class stores the values of the functional estimator (a two-sided spectrum starting at
+    # frequency 0; MUSIC / EV functions return the centred layout, which the class rotates)
+    import spectrum as sp
+    from spectrum.eigenfre import eigen
+    for N, nfft in confs[:3]:
+        xc = zoo.signal(rng, N, True, 'tones')
+        pp = zoo.PARAMS
+        fns = {
+            'pcorrelogram': lambda: sp.CORRELOGRAMPSD(xc.copy(), lag=pp['corrlag'], NFFT=nfft),
+            'pminvar': lambda: sp.minvar(xc.copy(), pp['order'], NFFT=nfft)[0],
+            'Periodogram': lambda: sp.speriodogram(xc.copy(), NFFT=nfft, detrend=False, scale_by_freq=False, window='hann'),
+            'pmusic': lambda: np.roll(eigen(xc.copy(), pp['IP'], NSIG=pp['NSIG'], method='music', NFFT=nfft)[0], -(nfft // 2)),
+            'pev': lambda: np.roll(eigen(xc.copy(), pp['IP'], NSIG=pp['NSIG'], method='ev', NFFT=nfft)[0], -(nfft // 2)),
+            'pburg': lambda: sp.arma2psd(A=sp.arburg(xc.copy(), pp['order'])[0], rho=sp.arburg(xc.copy(), pp['order'])[1], NFFT=nfft),
+        }
+        for name, f in fns.items():
+            ev = {'ev': 'classfn', 'cls': name, 'N': N, 'nfft': nfft}
+            ok1, a = call_guard(lambda: np.array(zoo.build(name, xc.copy(), nfft).psd))
+            ok2, b = call_guard(f)
+            ev['raised'] = not (ok1 and ok2)
+            ev['dev'] = obs.q(zoo.rel_dev(a, b)) if ok1 and ok2 else 0
+            batch.add(ev, {'cls': name, 'N': N, 'nfft': nfft, 'seed': chk.seed})
     obs.validate(chk, batch, 'obs-tones', lambda ev, cl: 'C02:%s:%s:%s:%s:%s' % (ev['ev'], ev['cls'], ev.get('dt', 'real'), 'odd' if ev.get('nfft_asked', ev['nfft']) % 2 else 'even', cl),
                  lambda ev, cl: '%s (NFFT=%d, N=%d): clause "%s" fails: %s' % (ev['cls'], ev.get('nfft_asked', ev['nfft']), ev['N'], cl, ev))
     chk.sample('obs-event', batch.events[0], 1)
